@@ -15,9 +15,18 @@ for name in sorted(os.listdir(os.path.join(HERE, "seeded"))):
             keys = r["violation_keys"][:2]
             break
     what = m.get("summary", "")
-    rows.append(f"| {name} | {m['property']} | {what} | {', '.join(caught) or '**missed**'} | {'; '.join(k.split('/', 1)[1] if '/' in k else k for k in keys)} |")
+    np_ = os.path.join(HERE, "seeded", name, "notes.md")
+    if not what and os.path.exists(np_):
+        first = next((ln.strip() for ln in open(np_) if ln.strip()), "")
+        what = re.sub(r"^#+\s*(C\d\d)?\s*(change|Change)?\s*\d*\s*[-:\u2013\u2014]*\s*", "", first).replace("|", "/")[:160]
+    if m.get("superseded"):
+        how = "superseded by a later fix (see meta.json)" + (": " + ", ".join(caught) if caught else "")
+    else:
+        how = ", ".join(caught) or "**missed**"
+    rows.append(f"| {name} | {m['property']} | {what} | {how} | {'; '.join(k.split('/', 1)[1] if '/' in k else k for k in keys)} |")
 table = "| seeded change | property | change (needs to manifest) | caught by | first witness keys |\n|---|---|---|---|---|\n" + "\n".join(rows)
-table += f"\n\n{sum(1 for r in rows if '**missed**' not in r)}/{len(rows)} seeded changes are caught by the check of the property they break.\n"
+live = [r for r in rows if "superseded by a later fix" not in r]
+table += f"\n\n{sum(1 for r in live if '**missed**' not in r)}/{len(live)} seeded changes that still break their property on the current tree are caught (quick tier unless noted); {len(rows) - len(live)} were superseded by later fixes.\n"
 p = os.path.join(HERE, "DESIGN.md")
 s = open(p).read()
 s = re.sub(r"<!-- KILL-MATRIX-START -->.*<!-- KILL-MATRIX-END -->", "<!-- KILL-MATRIX-START -->\n" + table.replace("\\", "\\\\") + "<!-- KILL-MATRIX-END -->", s, flags=re.S)
